@@ -13,17 +13,31 @@ Section PrimEqSrcThm.
   Variable c : @PEcfg F.
   Variable m : @Moist F.
 
+  (** first syntactic equality; if the source was re-associated / commuted, ring after unfolding
+      (conditionals and column-operator applications are atoms) *)
+  Ltac src_eq :=
+    intros; first
+      [ reflexivity
+      | (cbv beta zeta delta [u_dot_grad u_dot_grad_src t_omega_over_sigma_sp t_omega_over_sigma_sp_src g_part
+                              combined_u combined_v combined_u_src combined_v_src combined_u_moist_src combined_v_moist_src
+                              rt_dry rt_moist rt_cloud rt_moist_src rt_cloud_src moisture_contribution moisture_contribution_src
+                              kinetic kinetic_src temp_vertical_tendency temp_vertical_tendency_src
+                              hsa_nodal hsa_mu hsa_mv hsa_nodal_src hsa_u_src hsa_v_src
+                              temp_adiabatic temp_adiabatic_src temp_adiabatic_moist temp_adiabatic_moist_src
+                              g_explicit g_full_adiabatic log_pressure_tendency log_pressure_tendency_src];
+         cbn [fnat fpow]; try ring) ].
+
   Lemma u_dot_grad_matches_source x k : u_dot_grad x k = u_dot_grad_src x k.
-  Proof. reflexivity. Qed.
+  Proof. src_eq. Qed.
 
   Lemma t_omega_matches_source Tf g vg k :
     t_omega_over_sigma_sp c Tf g vg k = t_omega_over_sigma_sp_src c Tf g vg k.
-  Proof. reflexivity. Qed.
+  Proof. src_eq. Qed.
 
   Lemma combined_matches_source inc_va x k :
     combined_u c inc_va x (rt_dry c x) k = combined_u_src c inc_va x k /\
     combined_v c inc_va x (rt_dry c x) k = combined_v_src c inc_va x k.
-  Proof. split; reflexivity. Qed.
+  Proof. split; src_eq. Qed.
 
   Lemma kinetic_matches_source x k : kinetic x k = kinetic_src x k.
   Proof.
@@ -34,38 +48,38 @@ Section PrimEqSrcThm.
 
   Lemma temp_vertical_tendency_matches_source inc_va x k :
     temp_vertical_tendency c inc_va x k = temp_vertical_tendency_src c inc_va x k.
-  Proof. unfold temp_vertical_tendency, temp_vertical_tendency_src. destruct (tref_nonuniform c); reflexivity. Qed.
+  Proof. unfold temp_vertical_tendency, temp_vertical_tendency_src. destruct (tref_nonuniform c); src_eq. Qed.
 
   Lemma hsa_matches_source x s k :
     hsa_nodal x s k = hsa_nodal_src x s k /\
     hsa_mu x s k = hsa_u_src x s k * n_sec2 x /\
     hsa_mv x s k = hsa_v_src x s k * n_sec2 x.
-  Proof. repeat split; reflexivity. Qed.
+  Proof. split; [|split]; src_eq. Qed.
 
   Lemma temp_adiabatic_matches_source x k : temp_adiabatic c x k = temp_adiabatic_src c x k.
-  Proof. unfold temp_adiabatic, temp_adiabatic_src, g_explicit, g_full_adiabatic. reflexivity. Qed.
+  Proof. src_eq. Qed.
 
   Lemma log_pressure_tendency_matches_source x :
     log_pressure_tendency c x = log_pressure_tendency_src c x.
-  Proof. reflexivity. Qed.
+  Proof. src_eq. Qed.
 
   Lemma rt_moist_matches_source x q k :
     moisture_contribution c m q k = moisture_contribution_src c m q k /\
     rt_moist c m x q k = rt_moist_src c x (moisture_contribution c m q) k.
-  Proof. split; reflexivity. Qed.
+  Proof. split; src_eq. Qed.
 
   Lemma rt_cloud_matches_source x q qc qi k :
     rt_cloud c m x q qc qi k = rt_cloud_src c x (moisture_contribution c m q) qc qi k.
-  Proof. reflexivity. Qed.
+  Proof. src_eq. Qed.
 
   Lemma combined_moist_matches_source inc_va x q rt k :
     combined_u c inc_va x rt k = combined_u_moist_src c inc_va x q rt k /\
     combined_v c inc_va x rt k = combined_v_moist_src c inc_va x q rt k.
-  Proof. split; reflexivity. Qed.
+  Proof. split; src_eq. Qed.
 
   Lemma temp_adiabatic_moist_matches_source x q k :
     temp_adiabatic_moist c m x q k = temp_adiabatic_moist_src c m x q k.
-  Proof. unfold temp_adiabatic_moist, temp_adiabatic_moist_src, g_explicit, g_full_adiabatic. reflexivity. Qed.
+  Proof. src_eq. Qed.
 End PrimEqSrcThm.
 
 Lemma gen_primeq_complete : gen_primeq_ok = true.
